@@ -66,11 +66,18 @@ def exc_name(e):
 
 
 def make_morph(d):
+    """build the morphology from lists or, with d["nd"], from numpy ndarrays (both are 'arrays given by the caller')"""
     n = len(d["conn"])
     verts = d.get("verts")
     if verts is None:
         verts = [[i, 0, 0, 1] for i in range(n)]
-    return am.ArrayMorphology(vertices=verts, connectivity=d["conn"], id=d.get("id"), physical_mask=d.get("mask"))
+    conn = d["conn"]
+    mask = d.get("mask")
+    if d.get("nd"):
+        verts, conn = np.array(verts), np.array(conn)
+        if mask is not None:
+            mask = np.array(mask)
+    return am.ArrayMorphology(vertices=verts, connectivity=conn, id=d.get("id"), physical_mask=mask)
 
 
 def ints(a):
@@ -146,7 +153,8 @@ def morph_json(m):
     return {"verts": [[int(x) for x in row] for row in v.reshape(-1, 4)] if v.size else [],
             "conn": ints(c), "mask": [bool(x) for x in k.ravel()],
             "shapes": [list(v.shape), list(c.shape), list(k.shape)],
-            "dtypes": [str(v.dtype), str(c.dtype), str(k.dtype)], "id": m.id}
+            "dtypes": [str(v.dtype), str(c.dtype), str(k.dtype)],
+            "id": m.id if isinstance(m.id, (str, type(None))) else "<%s> %s" % (type(m.id).__name__, repr(m.id)[:60])}
 
 
 def close_all():
@@ -228,6 +236,93 @@ def run_morph(c, tmp, tag):
     return roundtrip(m, [m], tmp, tag)
 
 
+# ------------------------------------------------------------------ frame: two morphologies sharing their inputs
+def view_json(m):
+    segs = []
+    for k in range(len(m.segments)):
+        try:
+            segs.append(seg_json(m.segments[k]))
+        except IndexError:
+            segs.append(None)
+    return segs
+
+
+def conv_json(m):
+    try:
+        return [seg_json(s) for s in m.to_neuroml_morphology(id="conv").segments]
+    except IndexError:
+        return "IndexError"
+
+
+def run_frame(c, tmp, tag):
+    """A and B are built from the SAME caller arrays (lists or ndarrays), or B from A's arrays (the idiom of the
+    library's tests).  After every operation on one of them the other one and the caller's arrays must be unchanged."""
+    v_ref = [list(r) for r in c["verts"]]
+    c_ref = list(c["conn"])
+    if c["src"] == "ndarray":
+        vin, cin = np.array(c["verts"]), np.array(c["conn"])
+    else:
+        vin, cin = [list(r) for r in c["verts"]], list(c["conn"])
+    out = {}
+    try:
+        A = am.ArrayMorphology(vertices=vin, connectivity=cin, id="A")
+        if c["share"] == "from_morph":
+            B = am.ArrayMorphology(A.vertices, A.connectivity, id="B")
+        else:
+            B = am.ArrayMorphology(vertices=vin, connectivity=cin, id="B")
+    except Exception as e:  # noqa: BLE001
+        return {"r": "build:" + exc_name(e)}
+    ms = {"A": A, "B": B}
+
+    def snap():
+        return {"A.connectivity": ints(A.connectivity), "B.connectivity": ints(B.connectivity),
+                "A.vertices": [list(map(int, r)) for r in np.asarray(A.vertices).reshape(-1, 4)],
+                "B.vertices": [list(map(int, r)) for r in np.asarray(B.vertices).reshape(-1, 4)],
+                "caller.connectivity": ints(cin), "caller.vertices": [list(map(int, r)) for r in np.asarray(vin).reshape(-1, 4)]}
+
+    frame = []
+    err = None
+    for k, (who, op, arg) in enumerate(c["ops"]):
+        before = snap()
+        m = ms[who]
+        try:
+            if op == "to_root":
+                guarded(lambda: m.to_root(arg))
+            elif op == "convert":
+                m.to_neuroml_morphology(id="x")
+            elif op == "write_load":
+                roundtrip(m, [m], tmp, "%s_%d" % (tag, k))
+        except Exception as e:  # noqa: BLE001
+            err = exc_name(e)
+            break
+        after = snap()
+        for key in before:
+            mine = key.startswith(who + ".") and op == "to_root" and key.endswith("connectivity")
+            if not mine and before[key] != after[key]:
+                frame.append({"op_index": k, "op": [who, op, arg], "changed": key, "before": before[key], "after": after[key]})
+    if err is not None:
+        return {"r": err}
+    out["r"] = "ok"
+    out["connA"], out["connB"] = ints(A.connectivity), ints(B.connectivity)
+    out["caller_conn"] = ints(cin)
+    out["caller_unchanged"] = bool(ints(cin) == c_ref and [list(map(int, r)) for r in np.asarray(vin).reshape(-1, 4)] == v_ref)
+    out["frame"] = frame
+    # first (uncached) access to the segment views, then the conversions, then the file format
+    out["viewA"], out["viewB"] = view_json(A), view_json(B)
+    out["convA"], out["convB"] = conv_json(A), conv_json(B)
+    fa, fb = roundtrip(A, [A], tmp, tag + "_A"), roundtrip(B, [B], tmp, tag + "_B")
+    out["fileA"] = {k: fa.get(k) for k in ("r", "np_equal", "inputs_unchanged")}
+    out["fileB"] = {k: fb.get(k) for k in ("r", "np_equal", "inputs_unchanged")}
+    final = snap()
+    for key, val in (("A.connectivity", out["connA"]), ("B.connectivity", out["connB"]), ("caller.connectivity", out["caller_conn"])):
+        if final[key] != val:
+            frame.append({"op_index": len(c["ops"]), "op": ["*", "views/conversions/write/load", None], "changed": key,
+                          "before": val, "after": final[key]})
+    out["loadedA_conn"] = fa["loaded"][0]["conn"] if fa.get("r") == "ok" and fa["loaded"] else None
+    out["loadedB_conn"] = fb["loaded"][0]["conn"] if fb.get("r") == "ok" and fb["loaded"] else None
+    return out
+
+
 def main():
     payload = json.loads(sys.stdin.read() or "{}")
     tmp = tempfile.mkdtemp(prefix="c18_")
@@ -237,10 +332,11 @@ def main():
             "views": [run_view(c) for c in payload.get("views", [])],
             "docs": [run_doc(c, tmp, "d%d" % i) for i, c in enumerate(payload.get("docs", []))],
             "morphs": [run_morph(c, tmp, "m%d" % i) for i, c in enumerate(payload.get("morphs", []))],
+            "frames": [run_frame(c, tmp, "f%d" % i) for i, c in enumerate(payload.get("frames", []))],
         }
     finally:
         shutil.rmtree(tmp, ignore_errors=True)
-    print(json.dumps(res))
+    print(json.dumps(res, default=lambda x: "<%s>" % type(x).__name__))
 
 
 if __name__ == "__main__":
